@@ -50,6 +50,7 @@ type Spec struct {
 	NoType         bool   // the node states no "type" (an object with properties only)
 	RefSibling     string // a keyword written NEXT TO the $ref on the referring node: "type" (the target's own type) or "description"
 	IntBounds      bool   // the numeric bounds are integers (fact on their atoms)
+	FracBounds     bool   // the numeric bounds are NOT integers (fact on their atoms)
 	DefSameAs      string // with Ref: the definition has the same NAME as the (earlier built) definition with this label (possibly in another file)
 	DefLabel       string // label under which this definition's name can be reused
 	RefRootOf      string // a reference to the root of another file: {"$ref": "<file>"}
@@ -157,6 +158,9 @@ func (s *Spec) String() string {
 		kw := append([]string{}, s.Kw...)
 		sort.Strings(kw)
 		b.WriteString("{" + strings.Join(kw, ",") + "}")
+	}
+	if s.FracBounds {
+		b.WriteString(" fractional-bounds")
 	}
 	if s.EMin != "" {
 		b.WriteString(" emin=" + s.EMin)
@@ -359,10 +363,10 @@ func (b *builder) build(s *Spec, label string) gen.V {
 		}
 		return nil
 	}
-	if s.IntBounds {
+	if s.IntBounds || s.FracBounds {
 		for _, k := range []string{"minimum", "maximum"} {
 			if a := s.Atoms[k]; a != nil {
-				a.Facts["integral"] = "yes"
+				a.Facts["integral"] = map[bool]string{true: "yes", false: "no"}[s.IntBounds]
 			}
 		}
 	}
@@ -372,10 +376,10 @@ func (b *builder) build(s *Spec, label string) gen.V {
 	if v := ex(s.EMax, "exclusiveMaximum"); v != nil {
 		f["ExclusiveMaximum"] = v
 	}
-	if s.IntBounds {
+	if s.IntBounds || s.FracBounds {
 		for _, k := range []string{"exclusiveMinimum", "exclusiveMaximum"} {
 			if a := s.Atoms[k]; a != nil {
-				a.Facts["integral"] = "yes"
+				a.Facts["integral"] = map[bool]string{true: "yes", false: "no"}[s.IntBounds]
 			}
 		}
 	}
@@ -606,8 +610,11 @@ func (b *builder) build(s *Spec, label string) gen.V {
 		f["Enum"] = g.Anys()
 	case "nonprimitive-enum":
 		f["Enum"] = g.Anys(gen.Any(gen.TAnyMap(), g.Map(nil, nil)))
-	case "unknown-type":
+	case "unknown-type", "unknown-type-enum":
+		// (with -enum: the node also lists valid primitive enum values — the type name is still not a JSON Schema type)
 		f["Type"] = g.Types("strnig")
+	case "unknown-type-int-enum":
+		f["Type"] = g.Types("int")
 	case "missing-definition":
 		f = map[string]gen.V{"Ref": absint.Cat(absint.Lit("#/$defs/"), absint.HoleStr(b.atom(s, "RawStr", "name of a definition that does not exist", true)))}
 	case "bad-pointer":
